@@ -248,6 +248,21 @@ def run(chk, repo, tier):
             if isinstance(v, str) and 'Subproblem=' in v:
                 hdr = v
     if hdr is None:
+        # the pattern may have been hoisted into a module-level re.compile(..) constant
+        comp_ = {}
+        for a_ in tm.tree.body:
+            if isinstance(a_, ast.Assign) and len(a_.targets) == 1 and isinstance(a_.targets[0], ast.Name) \
+                    and isinstance(a_.value, ast.Call) and dotted(a_.value.func) == 're.compile' and a_.value.args:
+                try:
+                    comp_[a_.targets[0].id] = ast.literal_eval(a_.value.args[0])
+                except Exception:
+                    pass
+        for c in calls_in(pt.node):
+            if isinstance(c.func, ast.Attribute) and c.func.attr in ('match', 'fullmatch', 'search') \
+                    and isinstance(c.func.value, ast.Name) and isinstance(comp_.get(c.func.value.id), str) \
+                    and 'Subproblem=' in comp_[c.func.value.id]:
+                hdr = comp_[c.func.value.id]
+    if hdr is None:
         raise AnalysisError('Z4: header regex not found in _parse_table')
     parsed = list(sre_parse.parse(hdr))
 
@@ -710,9 +725,22 @@ def run_z18_z19(chk, repo):
                 continue
             L = next((L for L in loops if any(x is d for x in ast.walk(L))), None)
             tnames = {x.id for x in ast.walk(L.target) if isinstance(x, ast.Name)} if L is not None else set()
+            if L is not None:
+                # plain copies of the loop variables inside the body (`n, table = (n_, table_)` left by an inlined generator)
+                for _ in range(3):
+                    for a_ in ast.walk(L):
+                        if isinstance(a_, ast.Assign) and len(a_.targets) == 1:
+                            tg, vl = a_.targets[0], a_.value
+                            pairs_ = list(zip(tg.elts, vl.elts)) if isinstance(tg, ast.Tuple) and isinstance(vl, ast.Tuple) \
+                                and len(tg.elts) == len(vl.elts) else [(tg, vl)]
+                            for t_, v_ in pairs_:
+                                if isinstance(t_, ast.Name) and isinstance(v_, ast.Name) and v_.id in tnames:
+                                    tnames.add(t_.id)
+            # position in the loop body, not line numbers (statements of an inlined helper keep the lines of the helper)
+            pos_d = next((k for k, s_ in enumerate(L.body) if any(x is d for x in ast.walk(s_))), -1) if L is not None else -1
             after_filter = L is not None and any(
-                isinstance(s_, ast.If) and any(isinstance(x, ast.Continue) for x in ast.walk(s_)) and s_.lineno < d.lineno
-                for s_ in L.body)
+                isinstance(s_, ast.If) and any(isinstance(x, ast.Continue) for x in ast.walk(s_)) and k < pos_d
+                for k, s_ in enumerate(L.body))
             ok = L is not None and isinstance(d.value, ast.Name) and d.value.id in tnames and after_filter
             chk.instance(Z18, f'_parse_ofv: {unparse(d)} (read as {unparse(a)}): loop variable after the filter: {ok}')
             if not ok:
@@ -732,10 +760,21 @@ def run_z18_z19(chk, repo):
     readers = {c.name for c in dict.values(tm.classes) if any(
         isinstance(x, ast.Constant) and x.value == 'OBJ' for m_ in c.methods.values() for x in ast.walk(m_.node))}
     cfg = CFG(pt.node)
-    norm = [n for n in cfg.nodes.values() if n.ast is not None and n.kind == 'stmt' and any(
-        isinstance(c, ast.Call) and (dotted(c.func) or '').endswith('sub') and len(c.args) >= 2
-        and isinstance(c.args[0], ast.Constant) and str(c.args[0].value).endswith('OBJ')
-        and isinstance(c.args[1], ast.Constant) and c.args[1].value == 'OBJ' for c in ast.walk(n.ast))]
+    compiled = {a_.targets[0].id: a_.value.args[0].value for a_ in tm.tree.body
+                if isinstance(a_, ast.Assign) and len(a_.targets) == 1 and isinstance(a_.targets[0], ast.Name)
+                and isinstance(a_.value, ast.Call) and dotted(a_.value.func) == 're.compile' and a_.value.args
+                and isinstance(a_.value.args[0], ast.Constant) and isinstance(a_.value.args[0].value, str)}
+
+    def is_norm(c):
+        if not (isinstance(c, ast.Call) and (dotted(c.func) or '').endswith('sub')):
+            return False
+        if len(c.args) >= 2 and isinstance(c.args[0], ast.Constant) and str(c.args[0].value).endswith('OBJ') \
+                and isinstance(c.args[1], ast.Constant) and c.args[1].value == 'OBJ':
+            return True                     # re.sub(r'[A-Z]*OBJ', 'OBJ', text)
+        return isinstance(c.func, ast.Attribute) and isinstance(c.func.value, ast.Name) \
+            and str(compiled.get(c.func.value.id, '')).endswith('OBJ') and c.args \
+            and isinstance(c.args[0], ast.Constant) and c.args[0].value == 'OBJ'      # _OBJ_RE.sub('OBJ', text)
+    norm = [n for n in cfg.nodes.values() if n.ast is not None and n.kind == 'stmt' and any(is_norm(c) for c in ast.walk(n.ast))]
     if not norm or not readers:
         raise AnalysisError(f'Z19: normalisation ({len(norm)}) or table classes reading OBJ ({sorted(readers)}) not found')
     for n in cfg.nodes.values():
